@@ -167,7 +167,7 @@ impl PanicInfo {
         self.file.clone()
     }
     pub fn is_overflow(&self) -> bool {
-        self.message.starts_with("attempt to ")
+        self.message.starts_with("attempt to ") && self.message.contains("overflow")
     }
     /// Stable signature: file + enclosing function + message class (no line numbers).
     pub fn signature(&self) -> String {
